@@ -95,7 +95,7 @@ def finish(rep, level, explanation, rule_text, trusted_base, checker_cmd, seed=0
             i["known"] = True
         else:
             new.append(i)
-    ev_dir = os.path.join(VERIF, "evidence")
+    ev_dir = os.environ.get("PG_EVIDENCE_DIR") or os.path.join(VERIF, "evidence")
     rp_dir = os.path.join(ev_dir, "replay")
     os.makedirs(rp_dir, exist_ok=True)
     # remove stale replay files of this property
